@@ -16,7 +16,7 @@ pub enum Ty { V(Sc, u8), M(u8, u8), Struct(usize), Enum(usize) }
 struct Var { name: String, ty: Ty, lv: bool, arr: Option<u32> }
 
 #[derive(Clone)]
-struct Func { path: Vec<String>, params: Vec<(Ty, u8)>, ret: Option<Ty>, overloaded: bool, tmpl: bool }
+struct Func { path: Vec<String>, params: Vec<(Ty, u8)>, ret: Option<Ty>, overloaded: bool, tmpl: bool, defaults: usize }
 
 #[derive(Clone)]
 struct StructDef { path: Vec<String>, fields: Vec<(String, Ty)>, methods: Vec<(String, Vec<Ty>, Ty)>, tmpl: Option<Sc> }
@@ -45,6 +45,7 @@ pub struct Gen<'a> {
     pub struct_templates: bool,
     /// ConstantBuffer<S> globals: only their members can be read
     cb_structs: Vec<(String, usize)>,
+    mutable_globals: Vec<(Vec<String>, Ty)>,
 }
 
 pub fn sc_name(s: Sc) -> &'static str { match s { Sc::B => "bool", Sc::I => "int", Sc::U => "uint", Sc::F => "float" } }
@@ -55,7 +56,7 @@ const SWZ_C: [&str; 4] = ["r", "g", "b", "a"];
 impl<'a> Gen<'a> {
     pub fn new(rng: &'a mut Rng) -> Self {
         Gen { rng, scope: vec![], globals: vec![], funcs: vec![], structs: vec![], enums: vec![], res: vec![], locals: vec![], counter: 0,
-              entry_points: vec![], used_regs: vec![], this_fields: vec![], struct_templates: false, cb_structs: vec![] }
+              entry_points: vec![], used_regs: vec![], this_fields: vec![], struct_templates: false, cb_structs: vec![], mutable_globals: vec![] }
     }
 
     fn fresh(&mut self, stem: &str) -> String { self.counter += 1; format!("{}{}", stem, self.counter) }
@@ -366,6 +367,8 @@ impl<'a> Gen<'a> {
             let e = if f.overloaded || f.tmpl { self.expr(pt, d.min(2)) } else { self.loose(pt, d.min(2)) };
             if f.overloaded || f.tmpl { format!("({}){}", self.ty_name(pt), self.wrap(e)) } else { e }
         }).collect();
+        let mut args = args;
+        if f.defaults > 0 && self.rng.chance(1, 2) { let keep = args.len() - self.rng.range(1, f.defaults as u64) as usize; args.truncate(keep); }
         let name = self.refer(&f.path);
         if f.tmpl && self.rng.chance(1, 2) { format!("{}<{}>({})", name, self.ty_name(&f.params[0].0), args.join(", ")) } else { format!("{}({})", name, args.join(", ")) }
     }
@@ -515,6 +518,11 @@ impl<'a> Gen<'a> {
                             *out += &pre;
                             *out += &format!("{}{}({});\n", ind, self.refer(&f.path), args.join(", "));
                         }
+                    }
+                    2 if !self.mutable_globals.is_empty() => {
+                        let (p, t) = self.rng.pick(&self.mutable_globals.clone()).clone();
+                        let shadowed = self.locals.iter().flatten().any(|v| &v.name == p.last().unwrap());
+                        if !shadowed { let e = self.loose(&t, 2); let n = self.refer(&p); *out += &format!("{}{} {} {};\n", ind, n, self.rng.pick(&["=", "+=", "*="]), e); }
                     }
                     _ => self.resource_write(ind, out),
                 }
@@ -712,7 +720,17 @@ impl<'a> Gen<'a> {
         let t = self.num_ty();
         let name = self.global_name("k");
         let tn = self.ty_name(&t);
-        match self.rng.below(5) {
+        match self.rng.below(6) {
+            5 => {
+                // a mutable static: functions read and write it
+                let saved = std::mem::take(&mut self.locals);
+                let e = self.const_expr(&t, 1);
+                self.locals = saved;
+                *out += &format!("{}static {} {} = {};\n\n", ind, tn, name, e);
+                let p = self.path_of(&name);
+                self.globals.push((p.clone(), Var { name: name.clone(), ty: t.clone(), lv: true, arr: None }));
+                self.mutable_globals.push((p, t));
+            }
             0 if self.scope.is_empty() => {
                 *out += &format!("{}groupshared {} {}[4];\n\n", ind, tn, name);
                 // groupshared is written by entry points only; leave it out of the readable set to keep values defined
@@ -771,12 +789,19 @@ impl<'a> Gen<'a> {
                 }
             }
         }
+        // trailing scalar `in` parameters may have a default value
+        let mut n_defaults = 0usize;
+        if overload_of.is_none() && self.rng.chance(1, 4) {
+            for (t, dir) in params.iter().rev() { if *dir == 0 && matches!(t, Ty::V(_, 1)) { n_defaults += 1; } else { break; } }
+            n_defaults = n_defaults.min(2);
+        }
         let mut frame = Vec::new();
         let mut ps = Vec::new();
         for (i, (t, dir)) in params.iter().enumerate() {
             let pn = format!("p{}", i);
             let d = match dir { 1 => "out ", 2 => "inout ", _ => if self.rng.chance(1, 8) { "in " } else { "" } };
-            ps.push(format!("{}{} {}", d, self.ty_name(t), pn));
+            let dflt = if i + n_defaults >= params.len() { if let Ty::V(sk, 1) = t { format!(" = {}", self.literal(*sk)) } else { String::new() } } else { String::new() };
+            ps.push(format!("{}{} {}{}", d, self.ty_name(t), pn, dflt));
             frame.push(Var { name: pn, ty: t.clone(), lv: true, arr: None });
         }
         let saved = std::mem::replace(&mut self.locals, vec![frame]);
@@ -793,7 +818,7 @@ impl<'a> Gen<'a> {
         *out += &format!("{}{} {}({})\n{}{{\n{}{}}}\n\n", ind, rn, name, ps.join(", "), ind, body, ind);
         let path = self.path_of(&name);
         if overload_of.is_some() { for f in self.funcs.iter_mut() { if f.path == path { f.overloaded = true; } } }
-        self.funcs.push(Func { path, params, ret, overloaded: overload_of.is_some(), tmpl: false });
+        self.funcs.push(Func { path, params, ret, overloaded: overload_of.is_some(), tmpl: false, defaults: n_defaults });
     }
 
     fn decl_function_template(&mut self, out: &mut String, ind: &str) {
@@ -803,7 +828,7 @@ impl<'a> Gen<'a> {
         let path = self.path_of(&name);
         for s in [Sc::F, Sc::I, Sc::U] {
             let t = Ty::V(s, *self.rng.pick(&[1u8, 3]));
-            self.funcs.push(Func { path: path.clone(), params: vec![(t.clone(), 0), (t.clone(), 0)], ret: Some(t), overloaded: false, tmpl: true });
+            self.funcs.push(Func { path: path.clone(), params: vec![(t.clone(), 0), (t.clone(), 0)], ret: Some(t), overloaded: false, tmpl: true, defaults: 0 });
         }
     }
 
@@ -954,7 +979,7 @@ impl<'a> Gen<'a> {
             let tn = self.ty_name(&t);
             let bn = self.refer(&b.path);
             out += &format!("{} {}()\n{{\n    {}<{}> b;\n    b.set({});\n    b.v = b.get();\n    return b.v;\n}}\n\n", tn, f, bn, tn, e);
-            self.funcs.push(Func { path: vec![f], params: vec![], ret: Some(t), overloaded: false, tmpl: false });
+            self.funcs.push(Func { path: vec![f], params: vec![], ret: Some(t), overloaded: false, tmpl: false, defaults: 0 });
         }
         for _ in 0..self.rng.range(1, 3) { self.decl_entry(&mut out); }
         if self.rng.chance(1, 3) {
